@@ -49,6 +49,8 @@ Kernels == {
     K("warnorder", << "10 PRINT A(A(0));D(I)", "20 B(E(1))=F9:PRINT C(-1)" >>),
     \* limit and step are fixed at entry -- computed BEFORE the loop variable is assigned
     K("forself", << "10 I=5:S=2", "20 FOR I=1 TO I+1:PRINT I;:NEXT I", "30 FOR S=S TO 6 STEP S:PRINT S;:NEXT S", "40 FOR J=J+3 TO J+4:PRINT J;:NEXT J" >>),
+    \* STOP as the whole THEN clause, with an ELSE behind it: CONT resumes after the line
+    K("stopelse", << "10 X=1:IF X THEN STOP ELSE PRINT \"NO\"", "20 PRINT \"AFTER\";X", "30 IF 0 THEN PRINT 1 ELSE STOP", "40 PRINT \"END\"" >>),
     K("input2",  << "10 IF 1 THEN INPUT X ELSE PRINT \"NO\"", "20 GOSUB 100:PRINT X;S$", "30 IF 0 THEN PRINT 1 ELSE INPUT Q(2):PRINT Q(2)", "40 END",
                     "100 INPUT S$:RETURN" >>)
 }
